@@ -42,6 +42,15 @@ theorem no_quote_table_safe :
   refine ⟨by decide, ?_⟩
   decide +kernel
 
+/-- The `safe=` set that `dump_cookie` passes to `urllib.parse.quote` for the Path attribute contains
+none of the characters that could end the attribute or the header line (`;`, `,`, SP, `"`, `\`,
+controls, non-ASCII): with `quote` percent-encoding everything outside `safe` ∪ unreserved
+(assumption about urllib, validated by stream `attrs`), a Path value cannot inject attributes. -/
+theorem path_safe_excludes_separators :
+    Gen.Cookie.pathSafe.toList.all
+      (fun c => 0x21 ≤ c.toNat && c.toNat ≤ 0x7E && c != ';' && c != '"' && c != '\\') = true := by
+  decide +kernel
+
 /-! ## every value -/
 
 /-- one token of a quoted cookie value: a raw cookie-octet or SP, or one of the three escapes -/
